@@ -353,7 +353,8 @@ fn one(args: &Args) -> i32 {
     ctx.cur_index = index;
     let res = engines::run_one(&engine, run_seed, &mut ctx);
     let vs: Vec<_> = res.violations.iter().map(|(v, _)| v.clone()).collect();
-    println!("{}", serde_json::to_string(&json!({"stats": res.stats, "violations": vs})).unwrap());
+    let recs: Vec<_> = res.violations.iter().map(|(v, sc)| json!({"index": index, "run_seed": run_seed, "violation": v, "scenario": sc})).collect();
+    println!("{}", serde_json::to_string(&json!({"stats": res.stats, "violations": vs, "records": recs})).unwrap());
     if vs.is_empty() { 0 } else { 1 }
 }
 
